@@ -48,11 +48,17 @@ class Ctx(object):
         self.case = case
         self.data = {}
 
+    def _hist(self, detail):
+        h = self.data.get("history")
+        if h:
+            return (detail or "") + " [state of the object: after " + "; ".join(h) + "]"
+        return detail
+
     def prove(self, name, goal, detail=None):
-        return self.st.prove("%s/%s" % (self.contract.oid, name), goal, detail)
+        return self.st.prove("%s/%s" % (self.contract.oid, name), goal, self._hist(detail))
 
     def fail(self, name, detail, status="refuted"):
-        return self.st.fail("%s/%s" % (self.contract.oid, name), detail, status=status)
+        return self.st.fail("%s/%s" % (self.contract.oid, name), self._hist(detail), status=status)
 
     def assume(self, z):
         self.st.assume(z)
@@ -271,13 +277,20 @@ def check_frame(ctx, contract):
             obj, attr = ev[1], ev[2]
             if contract.modifies is not None and obj is self_obj and attr not in contract.modifies:
                 known = getattr(obj, "assumed_fields", None)
-                if known is not None and attr not in known:
+                if attr in getattr(obj, "extra_fields", ()):
+                    # a field outside the representation invariant whose contents are derived
+                    # from the code (pyvc.extra): writing it is no frame violation by itself --
+                    # the accessor contracts are verified from every state such writes produce
+                    pass
+                elif known is not None and attr not in known:
                     # state the representation invariant does not mention (e.g. a memo field):
                     # whether writing it is harmless needs an invariant for it -- undecided
                     ctx.fail("frame/self.%s" % attr, "field %s, which the assumed representation invariant does not cover, is written" % attr,
                              status="unknown")
                 else:
                     ctx.fail("frame/self.%s" % attr, "field %s written but not in modifies %s" % (attr, sorted(contract.modifies)))
+            elif obj is not self_obj and attr in getattr(obj, "extra_fields", ()):
+                pass
             elif obj is not self_obj and not getattr(obj, "fresh", False) and obj in ctx.data.get("foreign", ()):
                 ctx.fail("frame/other.%s" % attr, "field %s of another object written" % attr)
         elif kind == "map-write":
